@@ -101,6 +101,31 @@ def run(ctx):
             st2 = dict(stb, TO_TIMEZONE=B2)
             cases.append({"s": "2 hours ago " + zname2, "langs": ["en"], "settings": st2,
                           "expect": expect_str(x.replace(tzinfo=None), off=str(int(x.utcoffset().total_seconds())) if isaw else "naive"), "stratum": "relative+zone"})
+        # relative phrases in calendar units (the wall clock moves by whole days / weeks / months in TIMEZONE, then the result is an
+        # instant of that zone): crossing a DST change must not shift the instant
+        from dateutil.relativedelta import relativedelta
+        ph, delta = R.choice([("1 week ago", relativedelta(weeks=-1)), ("in 1 month", relativedelta(months=1)), ("yesterday", relativedelta(days=-1)),
+                              ("tomorrow", relativedelta(days=1)), ("3 days ago", relativedelta(days=-3)), ("in 2 weeks", relativedelta(weeks=2)),
+                              ("6 months ago", relativedelta(months=-6)), ("in 1 year", relativedelta(years=1))])
+        try:
+            w2 = w + delta
+            now_a = localize(tz_of(A), w)
+            x = localize(tz_of(A), w2)
+            if B:
+                x = x.astimezone(tz_of(B))
+            isaw = aware is True
+            wrong = None
+            if now_a.utcoffset() != localize(tz_of(A), w2).utcoffset():
+                # what the recorded defect produces: the base's UTC offset kept on the shifted wall clock
+                y = w2.replace(tzinfo=dt.timezone(now_a.utcoffset()))
+                y = y.astimezone(tz_of(B)) if B else y
+                wrong = expect_str(y.replace(tzinfo=None), off=str(int(y.utcoffset().total_seconds())) if isaw else "naive",
+                                   period="month" if "month" in ph else ("year" if "year" in ph else ("week" if "week" in ph else "day")))
+            cases.append({"s": ph, "langs": ["en"], "settings": stb, "stratum": "relative-calendar" + ("/across-dst" if wrong else ""), "wrong_by_dst": wrong,
+                          "expect": expect_str(x.replace(tzinfo=None), off=str(int(x.utcoffset().total_seconds())) if isaw else "naive",
+                                               period="month" if "month" in ph else ("year" if "year" in ph else ("week" if "week" in ph else "day")))})
+        except Exception:  # gap / ambiguous / out of range
+            pass
         # timestamp: the instant itself, expressed in TIMEZONE then TO_TIMEZONE
         secs = R.randint(10 ** 9, 2 * 10 ** 9)
         inst = dt.datetime.fromtimestamp(secs, dt.timezone.utc)
@@ -113,7 +138,34 @@ def run(ctx):
             x = x.astimezone(tz_of(B))
         offt = str(int(x.utcoffset().total_seconds())) if aware is True else "naive"
         cases.append({"s": str(secs), "langs": ["en"], "settings": st, "expect": expect_str(x.replace(tzinfo=None), off=offt), "stratum": "timestamp"})
-    res = decide(ctx, cases, model_share=1.0 if tier == "quick" else 0.2)
+    # targeted: zones with DST, bases within a week/month of a transition
+    from dateutil.relativedelta import relativedelta
+    for A, w in [("Europe/Paris", D(2020, 4, 1, 12, 0)), ("America/New_York", D(2021, 10, 20, 9, 0)), ("Europe/Paris", D(2020, 3, 29, 12, 0)),
+                 ("Australia/Lord_Howe", D(2022, 4, 5, 8, 15)), ("America/New_York", D(2021, 3, 20, 23, 30))]:
+        for ph, delta in [("1 week ago", relativedelta(weeks=-1)), ("in 1 month", relativedelta(months=1)), ("yesterday", relativedelta(days=-1)), ("in 2 weeks", relativedelta(weeks=2))]:
+            for B, aware in ((None, True), ("UTC", False), ("+0530", True)):
+                try:
+                    now_a = localize(tz_of(A), w); w2 = w + delta; x0 = localize(tz_of(A), w2)
+                except Exception:  # noqa
+                    continue
+                x = x0.astimezone(tz_of(B)) if B else x0
+                per = "month" if "month" in ph else ("week" if "week" in ph else "day")
+                wrong = None
+                if now_a.utcoffset() != x0.utcoffset():
+                    y = w2.replace(tzinfo=dt.timezone(now_a.utcoffset())); y = y.astimezone(tz_of(B)) if B else y
+                    wrong = expect_str(y.replace(tzinfo=None), off=str(int(y.utcoffset().total_seconds())) if aware else "naive", period=per)
+                st = {"TIMEZONE": A, "RELATIVE_BASE": w, "RETURN_AS_TIMEZONE_AWARE": aware}
+                if B:
+                    st["TO_TIMEZONE"] = B
+                cases.append({"s": ph, "langs": ["en"], "settings": st, "stratum": "relative-calendar" + ("/across-dst" if wrong else ""), "wrong_by_dst": wrong,
+                              "expect": expect_str(x.replace(tzinfo=None), off=str(int(x.utcoffset().total_seconds())) if aware else "naive", period=per)})
+
+    def known_key(c, got):
+        from props.base import strip_locale
+        if c.get("wrong_by_dst") and got is not None and strip_locale(got) == c["wrong_by_dst"]:
+            return {"rule": "relative-calendar-units-across-dst"}
+        return None
+    res = decide(ctx, cases, model_share=1.0 if tier == "quick" else 0.2, known_key=known_key)
     # TIMEZONE='local' under several process zones
     lv = []
     nlocal = 0
